@@ -15,6 +15,7 @@ type scenGen struct {
 	pats   []int
 	merges []int
 	bad    []int
+	pairs  [][2]int // (document, variant derived from it)
 	nextID uint32
 	prop   string
 	faults map[string]int64
@@ -63,8 +64,10 @@ func (sg *scenGen) genBufs(corruptPermille int) {
 		d := g.Doc()
 		di := sg.addBuf(d)
 		sg.docs = append(sg.docs, di)
-		if r.P(500) {
-			sg.docs = append(sg.docs, sg.addBuf(g.Variant(d)))
+		if r.P(600) {
+			vi := sg.addBuf(g.Variant(d))
+			sg.docs = append(sg.docs, vi)
+			sg.pairs = append(sg.pairs, [2]int{di, vi})
 		}
 		np := 1 + r.Intn(2)
 		for j := 0; j < np; j++ {
@@ -139,6 +142,19 @@ func (sg *scenGen) opts() Opts {
 	return o
 }
 
+// related makes a two-document call work on a document and a variant derived from
+// it (deep, partially equal structures) rather than on two unrelated documents.
+func (sg *scenGen) related(c *Call) {
+	if len(sg.pairs) == 0 || !sg.r.P(600) {
+		return
+	}
+	p := sg.pairs[sg.r.Intn(len(sg.pairs))]
+	c.A, c.B = p[0], p[1]
+	if sg.r.Bool() {
+		c.A, c.B = c.B, c.A
+	}
+}
+
 // genCall produces one call.  decoded lists the slots known to hold a patch.
 func (sg *scenGen) genCall(slotsRead []int, slotWrite int, legacy bool) Call {
 	r := sg.r
@@ -181,12 +197,14 @@ func (sg *scenGen) genCall(slotsRead []int, slotWrite int, legacy bool) Call {
 	case x < 90:
 		c.Fn = FnCreateMergePatch
 		c.A, c.B = sg.pick(sg.docs), sg.pick(sg.docs)
+		sg.related(&c)
 	default:
 		c.Fn = FnEqual
 		c.A, c.B = sg.pick(sg.docs), sg.pick(sg.docs)
 		if r.P(300) {
 			c.B = c.A
 		}
+		sg.related(&c)
 	}
 	if usesB(c.Fn) && r.P(80) {
 		c.A, c.B = sg.anyBuf(), sg.anyBuf()
